@@ -281,3 +281,78 @@ func (b *box) M() { b.mu.Lock(); b.known = nil; b.mu.Unlock() }
 		t.Errorf("decorated constructor must be refused:\n%s", bad)
 	}
 }
+
+// the guarded state is identified structurally: renamed / reordered fields, state regrouped into embedded or
+// named nested structs, lock operations inside a method of the nested struct
+const headerNested = `package p
+
+import "sync"
+
+type tree struct{ vals []int }
+
+func (t *tree) Find(k int) bool { return len(t.vals) > k }
+func (t *tree) Add(k int)       { t.vals = append(t.vals, k) }
+func (t *tree) Clone() *tree    { return &tree{vals: append([]int(nil), t.vals...)} }
+
+type inventory struct {
+	known []int
+	guard sync.Mutex
+}
+
+type lookup struct {
+	cur  *tree
+	lock sync.RWMutex
+}
+
+func (l *lookup) replace(t *tree) {
+	l.lock.Lock()
+	l.cur = t
+	l.lock.Unlock()
+}
+
+type box struct {
+	dflt int
+	inventory
+	idx lookup
+}
+`
+
+func TestNestedStructs(t *testing.T) {
+	out := runWith(t, headerNested, `
+func (b *box) Get(k int) bool {
+	b.idx.lock.RLock()
+	defer b.idx.lock.RUnlock()
+	return b.idx.cur.Find(k)
+}
+
+func (b *box) Put(k int) {
+	b.guard.Lock()
+	defer b.guard.Unlock()
+	tmp := b.idx.cur.Clone()
+	tmp.Add(k)
+	b.known = append(b.known, k)
+	b.idx.replace(tmp)
+}
+`)
+	for _, want := range []string{
+		"0 = inventory.guard (sync.Mutex)", "1 = idx.lock (sync.RWMutex)",
+		"0 = dflt (plain)", "1 = inventory.known (plain)", "2 = idx.cur (pointer)",
+		"SEv (ERLock 1)", "SDefer (ERUnlock 1)", "SEv (ELoad 0 2)", "SEv (EObjRead 0)",
+		"SEv (ELock 0)", "SDefer (EUnlock 0)", "SEv (EClone 1 0)", "SEv (EObjWrite 1)", "SEv (ERead 1)", "SEv (EWrite 1)",
+		"SCall [SEv (ELock 1);\n     SEv (EStore 2 1);\n     SEv (EUnlock 1)]", // the nested struct's method, inlined
+	} {
+		if !strings.Contains(out, want) {
+			t.Errorf("missing %q in\n%s", want, out)
+		}
+	}
+
+	if strings.Contains(out, "EUnsupported") {
+		t.Errorf("nested pattern must translate completely:\n%s", out)
+	}
+
+	// a nested struct used as a value copies mutexes and guarded fields: refused
+	out = runWith(t, headerNested, `func (b *box) M() { x := b.idx; _ = x }`)
+	if !strings.Contains(out, "EUnsupported") {
+		t.Errorf("nested struct used as a value must be refused:\n%s", out)
+	}
+}
